@@ -32,7 +32,7 @@ var opByID = func() map[string]int {
 	return m
 }()
 
-var varNames = []string{"a", "b", "m", "s", "x", "t", "ts", "tm", "st", "u", "tf", "st2"}
+var varNames = []string{"a", "b", "m", "s", "x", "t", "ts", "tm", "st", "u", "tf", "st2", "rows"}
 
 // ---------- one world: an anko environment and the model, side by side ----------
 
@@ -141,7 +141,7 @@ func (w *world) initialDiff() (diff, where string) {
 func (w *world) key() [20]byte {
 	rs := w.modelRoots()
 	if w.m.taintX {
-		rs = append(rs, root{"x(tainted)", w.m.g["x"]})
+		rs = append(rs, root{fmt.Sprintf("x(tainted from %s, dirty=%v)", w.m.taintRoot, w.m.taintDirty), w.m.g["x"]})
 	}
 	return sha1.Sum([]byte(dumpRoots(rs, true)))
 }
@@ -181,6 +181,16 @@ func (w *world) step(o op, fast bool) stepResult {
 	// is not determined by the property: operations through x are executed and
 	// every OTHER variable is compared, but not their outcome or value
 	throughTaintedX := w.m.taintX && stmtUses(o.S, "x")
+	if l, ok := o.S.(sLet); ok {
+		if lv, ok := l.lhs.(eVar); ok && lv.name == "x" && !exprUses(l.rhs, "x") {
+			throughTaintedX = false // x is simply re-bound
+		}
+	}
+	if throughTaintedX && w.m.taintDirty {
+		// the slot x was read from has been re-stored since: anko's x follows
+		// the slot, Go's x is the old copy; not determined by the property
+		return stepResult{src: src, kind: "undet", mo: outcome{undet: "operation through x after the typed slot it was read from was stored to again"}}
+	}
 	ro := runImpl(w.e, src, w.plain)
 	mo := w.m.exec(o.S, ro.err)
 	r := stepResult{src: src, mo: mo, ro: ro, alt: mo.alt}
